@@ -115,6 +115,8 @@ def stratified(vectors: List[Dict[str, Any]], cap: int, seed: int, key: Callable
 
 def default_key(v: Dict[str, Any]) -> str:
     e = v.get("expect", {})
+    if v.get("kind") == "tablecheck":
+        return "%s|%s|%s|%s|%s" % (v["pred"], v["ina"], v["nfc"], v["warn"], e.get("passed"))
     if v.get("kind") == "component":
         return "%s|%s|%s|%s" % (v["comp"], json.dumps(v["schema"], sort_keys=True), json.dumps(v["opts"], sort_keys=True), e.get("kind"))
     if v.get("kind") == "rows":
